@@ -189,6 +189,12 @@ def workloadAll (c : Nat) (busy : List BusyRef) (kind : CountKind) : Nat → Lis
   | _, [] => []
   | k0, iv :: rest => workloadInterval c k0 busy iv kind ++ workloadAll c busy kind (k0 + busy.length) rest
 
+/-- an operand of `Or`: the conjunction of its assertions (the assertion itself if there is one) -/
+def orOperand (o : List Fml) : Fml :=
+  match o with
+  | [a] => a
+  | _ => .and o
+
 /-- the formulas handed, one by one, to `set_z3_assertions` (or appended directly) by the
     constructor of a constraint, before the optional-constraint wrapper -/
 def CBody.raw (c : Nat) : CBody → List Fml
@@ -227,7 +233,7 @@ def CBody.raw (c : Nat) : CBody → List Fml
   | .fromExpr f => [f]
   | .forceApplyN cs n kind => [pbFun kind (cs.map (fun i => Fml.bvar (.applied i))) n]
   | .not_ o => [.not (.and o)]
-  | .or_ os => [.or os.flatten]
+  | .or_ os => [.or (os.map orOperand)]
   | .and_ os => [.and os.flatten]
   | .xor_ o1 o2 => [.xor (.and o1) (.and o2)]
   | .implies cond os => [.imp cond (.and os.flatten)]
